@@ -291,7 +291,47 @@ func (v *Vue) exprEnv(ctx VueContext, expression string) map[string]any {
 			return res, nil
 		}
 	}
+	// A called name that is neither a variable, a registered function nor a function of the
+	// expression library: calling it fails, naming it (not with "cannot call nil")
+	for _, name := range calledNames(helpers.MaskQuoted(expression)) {
+		if _, known := env[name]; known || exprKnowsFunction(name) {
+			continue
+		}
+		name := name
+		env[name] = func(args ...any) (any, error) {
+			return nil, &funcCallError{name: name, err: fmt.Errorf("function '%s' not found", name)}
+		}
+	}
 	return env
+}
+
+// calledNames lists the identifiers that are followed by an opening parenthesis in an expression
+// (with its string literals masked) and are not members of something (x.f(...)).
+func calledNames(expression string) []string {
+	var names []string
+	for i := 0; i < len(expression); {
+		if !helpers.IsIdentifierChar(rune(expression[i]), true) || expression[i] >= 0x80 {
+			i++
+			continue
+		}
+		start := i
+		for i < len(expression) && expression[i] < 0x80 && helpers.IsIdentifierChar(rune(expression[i]), false) {
+			i++
+		}
+		j := i
+		for j < len(expression) && expression[j] == ' ' {
+			j++
+		}
+		k := start - 1
+		for k >= 0 && expression[k] == ' ' {
+			k--
+		}
+		prevIsWord := start > 0 && (expression[start-1] >= 0x80 || helpers.IsIdentifierChar(rune(expression[start-1]), false))
+		if j < len(expression) && expression[j] == '(' && !prevIsWord && (k < 0 || expression[k] != '.') {
+			names = append(names, expression[start:i])
+		}
+	}
+	return names
 }
 
 // funcCallError is the failure of a registered function called from inside an expression. The
